@@ -1,6 +1,6 @@
 (* Props/C17.v -- property C17: extracting images and compiling them back reproduces the embedded textures.
    Only statements; every proof is [exact lemma].  [gen_pixtable] is regenerated from src/image/color.rs on every run. *)
-From TV Require Import Base.I32 Base.F32 Model.Pixel Gen.Pixel Spec.ImageSources
+From TV Require Import Base.I32 Base.F32 Model.Pixel Gen.Pixel Gen.TexFmt Spec.ImageSources
   Proofs.PixelSweep Proofs.Pixel Proofs.PixelSources.
 Open Scope Z_scope.
 
@@ -54,10 +54,26 @@ Theorem C17_extract_compile_roundtrip :
      into_option (set_soft_if_missing (s_fmt sp) (pt_fmt_num gen_pixtable Argb8888)) = Some (pt_fmt_num gen_pixtable f) /\
      into_option (set_soft_if_missing (s_has sp) true) = Some true /\
      opt_nat (into_option (s_ox sp)) = ox /\ opt_nat (into_option (s_oy sp)) = oy) ->
-    exists im, produce_image gen_pixtable ox oy t = Ok im /\
+    (* the padded image is within the bound that `truanm extract` puts on it (fix d8a7ff5; no bound before it) *)
+    over_bound gen_extract_bound ox oy t = false ->
+    exists im, extract_image gen_extract_bound gen_pixtable ox oy t = Ok im /\
       compile_textures pngfile png_dec gen_pixtable [SDir [(path, png_enc im)]]
         [{| we_path := path; we_specs := sp; we_loaded := LNone |}] = Ok [Some t].
-Proof. exact extract_compile_roundtrip. Qed.
+Proof.
+  intros pngfile png_enc png_dec Hpng f t ox oy sp path Hv Hs Hb.
+  destruct (extract_compile_roundtrip pngfile png_enc png_dec Hpng f t ox oy sp path Hv Hs) as [im [Hp Hc]].
+  exists im. split; [apply extract_image_within; assumption | exact Hc].
+Qed.
+
+(* beyond the bound extraction is a diagnostic, not an image: the round trip is about images that can be extracted *)
+Theorem C17_extract_beyond_bound_is_error : forall f t ox oy,
+  format_of_num gen_pixtable (t_fmt t) = Some f ->
+  length (t_data t) = (bpp_nat gen_pixtable f * t_w t * t_h t)%nat ->
+  over_bound gen_extract_bound ox oy t = true ->
+  extract_image gen_extract_bound gen_pixtable ox oy t = Err 28%nat.
+Proof.
+  intros f t ox oy Hf Hl Hb. unfold extract_image. rewrite Hf, Hl, Nat.eqb_refl, Hb. reflexivity.
+Qed.
 
 (* (5) entries sharing a path are matched to source entries in order of appearance *)
 Theorem C17_same_path_matched_in_order : forall (pngfile : Type) (ds : list (wentry pngfile)) q i d,
@@ -111,14 +127,15 @@ Example C17_roundtrip_instance :
    into_option (set_soft_if_missing (s_fmt ex_spec) (pt_fmt_num gen_pixtable Argb8888)) = Some (pt_fmt_num gen_pixtable Rgb565) /\
    into_option (set_soft_if_missing (s_has ex_spec) true) = Some true /\
    opt_nat (into_option (s_ox ex_spec)) = 3%nat /\ opt_nat (into_option (s_oy ex_spec)) = 1%nat) /\
-  (do im <- produce_image gen_pixtable 3 1 ex_tex;
+  over_bound gen_extract_bound 3 1 ex_tex = false /\
+  (do im <- extract_image gen_extract_bound gen_pixtable 3 1 ex_tex;
    compile_textures image Some gen_pixtable [SDir [(7%nat, im)]]
      [{| we_path := 7%nat; we_specs := ex_spec; we_loaded := LNone |}]) = Ok [Some ex_tex].
 Proof.
   split; [|split].
   - repeat split; try reflexivity. repeat constructor; cbn; lia.
   - repeat split; reflexivity.
-  - vm_compute. reflexivity.
+  - split; vm_compute; reflexivity.
 Qed.
 
 (* two script entries with the same path, two ANM sources with two entries each for that path and a directory:
